@@ -266,6 +266,36 @@ pub fn run(ctx: &Ctx) {
         "nonecell",
     );
 
+    // depth 2: every outer kind over every inner cell of a small pool containing None, in each operand position
+    // (e.g. !(none < x) must be true: the inner None rule composes with the outer operator)
+    let c2 = Cells2::new(vec![
+        Value::None,
+        Value::Int(3),
+        Value::Bool(true),
+        Value::String("abc".into()),
+        Value::Float(2.5),
+        Value::Vec(vec![Value::None]),
+    ]);
+    ctx.enumerate(
+        "none-cells-depth2",
+        c2.count(),
+        true,
+        |i, acc| {
+            let case = c2.cell(i);
+            fn has_none(e: &Expr) -> bool {
+                matches!(e, Expr::Value(Value::None)) || children(e).iter().any(|c| has_none(c))
+            }
+            let nt = has_none(&case.expr);
+            acc.cell(&format!("d2:{}", root_sig(&case.expr)), nt);
+            if nt && i % 7919 == 0 {
+                acc.sample("d2", || case.render());
+            }
+            check_deep(&case)
+        },
+        |i| c2.cell(i).to_json(),
+        "deepnone",
+    );
+
     let nrand = ctx.tier.pick(600_000u64, 6_000_000u64);
     ctx.random_min(
         "deep-none-trees",
